@@ -13,7 +13,13 @@ import (
 )
 
 func init() {
-	core.Register(core.Check{ID: "C14", Level: "exploration", Run: func(c *core.Ctx) { runC14(c); historyPass(c, "C14"); reentrancyPass(c, "C14"); arch386Pass(c, "C14") }})
+	core.Register(core.Check{ID: "C14", Level: "exploration", Run: func(c *core.Ctx) {
+		waitArch := background(func() { arch386Pass(c, "C14") })
+		runC14(c)
+		historyPass(c, "C14")
+		reentrancyPass(c, "C14")
+		waitArch()
+	}})
 }
 
 // ---- reference (digit by digit, shares nothing with the repository) ----
